@@ -704,6 +704,11 @@ func (g *gen) probeInterface() *probe {
 		p.feat("iface:holds-value")
 	}
 	variants := []string{"var", "var", "var", "param", "slice", "convert", "any-assert"}
+	if !g.off["iface-tuple-assign"] {
+		// the interface variable is set by a tuple assignment: from the results of
+		// a call returning the concrete type, or from several concrete values
+		variants = append(variants, "tuple-call", "tuple-assign")
+	}
 	if !g.off["nil-interface-call"] {
 		variants = append(variants, "nil-iface")
 	}
@@ -772,6 +777,37 @@ func (g *gen) probeInterface() *probe {
 			p.Lines[j] = "\t" + p.Lines[j]
 		}
 		p.add("}")
+		g.dump(t.ti, "&x")
+		g.dump(t.ti, "&y")
+	case "tuple-call":
+		fn := fmt.Sprintf("tp%d", p.ID)
+		if ptr {
+			p.Decls = append(p.Decls, fmt.Sprintf("func %s(k int) (int, *%s) {\n\tx := mk%s(k)\n\treturn k + 1, &x\n}\n", fn, T, T))
+		} else {
+			p.Decls = append(p.Decls, fmt.Sprintf("func %s(k int) (int, %s) {\n\treturn k + 1, mk%s(k)\n}\n", fn, T, T))
+		}
+		p.add("var i %s", c.src)
+		p.add("var n int")
+		p.add("n, i = %s(%d)", fn, k)
+		g.call("i."+t.name, "", t.name, alt)
+		other()
+		p.add("n, i = %s(%d)", fn, k+3)
+		g.call("i."+t.name, "", t.name, alt)
+		p.add("fmt.Println(%q, n, i == nil)", p.tag())
+	case "tuple-assign":
+		p.add("x := mk%s(%d)", T, k)
+		p.add("y := mk%s(%d)", T, k+5)
+		v2 := "y"
+		if ptr {
+			v2 = "&y"
+		}
+		p.add("var i, j %s", c.src)
+		p.add("i, j = %s, %s", val, v2)
+		g.call("i."+t.name, "", t.name, alt)
+		p.add("i, j = j, i")
+		g.call("i."+t.name, "", t.name, alt)
+		g.call("j."+t.name, "", t.name, alt)
+		p.add("fmt.Println(%q, i == nil, j == nil)", p.tag())
 		g.dump(t.ti, "&x")
 		g.dump(t.ti, "&y")
 	case "convert":
